@@ -273,11 +273,15 @@ impl Monitor for C12 {
             xs = gen::positive(&xs);
         }
         let (a, b) = match mode {
-            Mode::Exact => (*rng.pick(&[3.0, 0.1, 2.5, 1.0 / 3.0, 7.0, 0.75, 1000.0]), *rng.pick(&[0.0, 1.0, -2.5, 100.0, 1.0 / 3.0, -1000.0])),
-            Mode::Pow2 => (
-                *rng.pick(&[2.0, 0.5, 4.0, 1024.0, 0.0078125, 65536.0]),
-                if c.differences_only { *rng.pick(&[0.0, 1.0, -2.5, 64.0, 1024.0]) } else { 0.0 },
-            ),
+            Mode::Exact => (*rng.pick(&[3.0, 0.1, 2.5, 1.0 / 3.0, 7.0, 0.75, 1000.0, 1e-9, 1e9]), *rng.pick(&[0.0, 1.0, -2.5, 100.0, 1.0 / 3.0, -1000.0])),
+            Mode::Pow2 => {
+                // incl. very small and very large units (2^-60 .. 2^60): an absolute epsilon or
+                // threshold in the code shows only there
+                let a: f64 = *rng.pick(&[2.0, 0.5, 4.0, 1024.0, 0.0078125, 65536.0, 8.673617379884035e-19, 1.152921504606847e18, 9.313225746154785e-10, 1073741824.0, 2.9802322387695312e-8]);
+                // a dyadic offset stays exact only next to a moderate scale
+                let moderate = a.log2().abs() <= 20.0;
+                (a, if c.differences_only && moderate { *rng.pick(&[0.0, 1.0, -2.5, 64.0, 1024.0]) } else { 0.0 })
+            }
             Mode::General => (*rng.pick(&[3.0, 0.1, 2.5, 7.0, 0.3]), if c.irrational { *rng.pick(&[0.0, 1.0, -2.5]) } else { *rng.pick(&[0.0, 1.0, -2.5, 10.0]) }),
         };
         // in Pow2 mode an offset is only bit-exact for the difference-only views; the others of the
@@ -304,7 +308,7 @@ impl Monitor for C12 {
         v
     }
     fn rule(&self) -> String {
-        "trial = (one of 37 (view, relation) pairs from the statement's three lists; N; input class with ties; mode): two instances fed x and the mapped stream (a x + b, a x, or -x); after every update the second output must be the first (invariant), a times the first (scaling views), its negative / 100 minus it / -Max for Min (negation). Exact mode: exact scalar, rational a in {3, 0.1, 2.5, 1/3, 7, 0.75, 1000} and b, equality (1e-12 where a root of differently scaled data is taken). Pow2 mode: f64, a a power of two (and a dyadic b for the views that only form differences), bit identity. General mode: f64, general a, b, 1e-6 on well-conditioned windows. Flat windows are exempt only for Vst (returns the value) and Rsi's negation (returns 100). distinct = distinct (pair, N, mode, a, b, input hash)".into()
+        "trial = (one of 37 (view, relation) pairs from the statement's three lists; N; input class with ties; mode): two instances fed x and the mapped stream (a x + b, a x, or -x); after every update the second output must be the first (invariant), a times the first (scaling views), its negative / 100 minus it / -Max for Min (negation). Exact mode: exact scalar, rational a in {3, 0.1, 2.5, 1/3, 7, 0.75, 1000, 1e-9, 1e9} and b, equality (1e-12 where a root of differently scaled data is taken). Pow2 mode: f64, a a power of two from 2^-60 to 2^60 (and a dyadic b for the views that only form differences), bit identity. General mode: f64, general a, b, 1e-6 on well-conditioned windows. Flat windows are exempt only for Vst (returns the value) and Rsi's negation (returns 100). distinct = distinct (pair, N, mode, a, b, input hash)".into()
     }
     fn assumptions(&self) -> Vec<String> {
         vec!["offset invariance of Vsct and CTI in f64 is judged with small offsets on well-conditioned windows only (large offsets are C16's clause); their algebra is decided at the exact scalar".into()]
